@@ -45,14 +45,17 @@ def alloc_loop_spec(E, Mx, cur0, has0):
         s = ctx.self
         k = I(ctx.k)
         cur = I(s.attrs['_current_stream_id'])
-        att = I(ctx.local('attempt_counter', ('aug', 1)))
+        try:
+            att = I(ctx.local('attempt_counter', ('aug', 1)))
+        except Unsupported:
+            att = None               # a counted loop (`for _ in range(attempts)`) has no counter of its own: k is the loop index
         found = _found_flag(ctx)
         i = z3.Int('inv.i')
         upto = k - z3.If(found, 1, 0) if found is not None else k
         tried = z3.ForAll([i], z3.Implies(z3.And(i >= 1, i <= upto), unavailable(has0, (I(cur0) + 2 * i) % mod)))
         out = [
             ('cur=cur0+2k mod M+1', cur == (I(cur0) + 2 * k) % mod),
-            ('counter=k', att == k),
+            ('counter=k', (att == k) if att is not None else True),
             ('k bounded', z3.And(k >= 0, 2 * k <= Mx + 1)),
             ('all earlier candidates unavailable', tried),
             ('table unchanged', s.attrs['_streams'].has.eq(has0)),
